@@ -452,3 +452,34 @@ fn u02_4_hash_table_from_bytes_layout() {
     assert!(e.block_index == w[3], "block index is dword 3");
     core::mem::forget(t);
 }
+
+// ------------------------------------------------------------------------------------ U02.5 header reader (V1 / V2)
+// MpqHeader::read decodes every V1/V2 field from its published offset (whatever validation it applies first)
+// @harness unit=U02.5 props=C02,C01,C05 kind=complete timeout=900 target="header.rs: MpqHeader::read_with_limits, formats V1 and V2 (48 symbolic bytes)" oracle=mpq_interop
+#[kani::proof]
+#[kani::unwind(8)]
+#[kani::stub(alloc::fmt::format, stub_format)]
+fn u02_5_header_read_layout() {
+    use crate::header::{FormatVersion, MpqHeader};
+    let buf: [u8; 48] = kani::any();
+    kani::assume(buf[12] <= 1 && buf[13] == 0);   // format version word 0 or 1
+    let mut c = Cursor::new(&buf[..]);
+    match MpqHeader::read(&mut c) {
+        Ok(h) => {
+            let w32 = |o: usize| u32::from_le_bytes([buf[o], buf[o + 1], buf[o + 2], buf[o + 3]]);
+            let w16 = |o: usize| u16::from_le_bytes([buf[o], buf[o + 1]]);
+            assert!(buf[0] == b'M' && buf[1] == b'P' && buf[2] == b'Q' && buf[3] == 0x1A, "only the published signature is accepted");
+            assert!(h.header_size == w32(4) && h.archive_size == w32(8) && h.block_size == w16(14), "size fields and sector shift");
+            assert!((h.format_version == FormatVersion::V2) == (buf[12] == 1), "format version word");
+            assert!(h.hash_table_pos == w32(16) && h.block_table_pos == w32(20) && h.hash_table_size == w32(24) && h.block_table_size == w32(28), "table words");
+            if buf[12] == 1 {
+                let hi = u64::from(w32(32)) | (u64::from(w32(36)) << 32);
+                assert!(h.hi_block_table_pos == Some(hi) && h.hash_table_pos_hi == Some(w16(40)) && h.block_table_pos_hi == Some(w16(42)), "V2 words");
+            } else {
+                assert!(h.hi_block_table_pos.is_none() && h.hash_table_pos_hi.is_none(), "V1 has no extended words");
+            }
+            core::mem::forget(h);
+        }
+        Err(e) => core::mem::forget(e),
+    }
+}
